@@ -1,8 +1,1799 @@
-//! C09 — placeholder while the real check is being written (triggers the first jj-cli build).
+//! C09 — Moving changes down a stack never alters the snapshots above it.
+//!
+//! States are small commit graphs ("stacks") built from scratch through the real API: every
+//! commit applies line-level edits (modify / insert / delete a line, rewrite or remove the file)
+//! to the merged tree of its parents, one commit is the working-copy commit. Transitions are the
+//! three operations of the statement:
+//!   * lib engine: `rewrite::squash_commits` of a whole single-parent commit into its parent,
+//!     and `absorb::split_hunks_to_trees` + `absorb::absorb_hunks`, each followed by
+//!     `MutableRepo::rebase_descendants` (what `jj squash` / `jj absorb` do inside their
+//!     transaction), on an in-memory test backend;
+//!   * cli engine: the real `jj` binary (`$JJV_BIN`) run as a child process on a real
+//!     workspace (Git backend, files on disk): `jj split -r X -m .. <paths>`,
+//!     `jj squash -r X -u`, `jj absorb --from X [--into ..]`; the states before and after are
+//!     read back from the operation log (repo at the parent of the head operation / at the
+//!     head operation), so a snapshot of a dirty working copy taken by the command itself is
+//!     part of the "before" state.
+//! On every transition (old state S, new state S', source commit X):
+//!   (a) the topmost resulting commit (squash: the rewritten parent; split: the second commit;
+//!       absorb: the reparented source, or its rewritten parent when the emptied source was
+//!       abandoned) has exactly X's old tree ids;
+//!   (b) every proper descendant of X still exists (same change id) with exactly its old tree
+//!       ids, and the working-copy commit of S' has the tree ids the working-copy commit of S
+//!       had whenever that one was X or a descendant of X;
+//!   (c) every commit that is not a descendant-or-self of a possible receiver (squash: the
+//!       parent; split: X; absorb: the destination candidates among X's ancestors) keeps its
+//!       commit id and stays visible.
+//! Nothing is demanded of the receivers and of the commits between them and the source.
+
+use std::cell::RefCell;
+use std::collections::BTreeMap;
+use std::collections::BTreeSet;
+use std::collections::HashMap;
+use std::collections::HashSet;
+use std::path::Path;
+use std::path::PathBuf;
+use std::rc::Rc;
+use std::sync::Arc;
+use std::sync::Mutex;
+use std::sync::atomic::AtomicUsize;
+use std::sync::atomic::Ordering;
+
+use jj_lib::absorb::AbsorbSource;
+use jj_lib::absorb::absorb_hunks;
+use jj_lib::absorb::split_hunks_to_trees;
+use jj_lib::backend::ChangeId;
+use jj_lib::backend::CommitId;
+use jj_lib::backend::CopyId;
+use jj_lib::backend::MergedTreeValue;
+use jj_lib::backend::MillisSinceEpoch;
+use jj_lib::backend::Signature;
+use jj_lib::backend::Timestamp;
+use jj_lib::backend::TreeValue;
+use jj_lib::commit::Commit;
+use jj_lib::config::ConfigLayer;
+use jj_lib::config::ConfigSource;
+use jj_lib::default_backend_factories::default_backend_factories;
+use jj_lib::matchers::EverythingMatcher;
+use jj_lib::merge::Merge;
+use jj_lib::merged_tree::MergedTree;
+use jj_lib::merged_tree_builder::MergedTreeBuilder;
+use jj_lib::object_id::ObjectId as _;
+use jj_lib::ref_name::WorkspaceName;
+use jj_lib::repo::MutableRepo;
+use jj_lib::repo::ReadonlyRepo;
+use jj_lib::repo::Repo;
+use jj_lib::repo::RepoLoader;
+use jj_lib::repo_path::RepoPathBuf;
+use jj_lib::revset::RevsetExpression;
+use jj_lib::rewrite::CommitWithSelection;
+use jj_lib::rewrite::merge_commit_trees;
+use jj_lib::rewrite::squash_commits;
+use jj_lib::settings::UserSettings;
+use jj_lib::workspace::Workspace;
+use pollster::FutureExt as _;
+use rayon::prelude::*;
+use serde::Deserialize;
+use serde::Serialize;
+use serde_json::Value;
+use serde_json::json;
+use testutils::TestRepo;
+use vcommon::Counter;
+use vcommon::Coverage;
+use vcommon::Ctx;
+use vcommon::Level;
+use vcommon::Samples;
+use vcommon::catch;
+use vcommon::enumerate::decode;
+use vcommon::enumerate::product;
+use vcommon::machinery_failure;
+
+// ---------------------------------------------------------------------------------------
+// Case description (self-contained and serialisable: this is what a replay file holds)
+// ---------------------------------------------------------------------------------------
+
+#[derive(Clone, Debug, Serialize, Deserialize, PartialEq, Eq)]
+struct CommitSpec {
+    /// labels of earlier commits; empty = child of the root commit
+    parents: Vec<usize>,
+    /// (path, edit) applied in order to the merged parents' tree; edits are
+    /// `new` (rewrite the whole file with three fresh lines), `mod<i>` (replace line i by a
+    /// fresh line), `same<i>` (replace line i by the commit-independent line `Z<i>`),
+    /// `ins<i>` (insert a fresh line before line i), `del<i>`, `rm` (remove the file)
+    edits: Vec<(String, String)>,
+    /// empty description (a commit jj may discard when it becomes empty)
+    #[serde(default)]
+    nodesc: bool,
+}
+
+#[derive(Clone, Debug, Serialize, Deserialize, PartialEq, Eq)]
+#[serde(tag = "op", rename_all = "lowercase")]
+enum OpSpec {
+    /// squash the whole commit x into its only parent
+    Squash { x: usize },
+    /// absorb from x into the given ancestors (None = every mutable commit)
+    Absorb { x: usize, into: Option<Vec<usize>> },
+    /// split x; the given paths go to the first commit (cli engine only)
+    Split { x: usize, paths: Vec<String> },
+}
+
+impl OpSpec {
+    fn x(&self) -> usize {
+        match self {
+            OpSpec::Squash { x } | OpSpec::Absorb { x, .. } | OpSpec::Split { x, .. } => *x,
+        }
+    }
+    fn name(&self) -> &'static str {
+        match self {
+            OpSpec::Squash { .. } => "squash",
+            OpSpec::Absorb { .. } => "absorb",
+            OpSpec::Split { .. } => "split",
+        }
+    }
+}
+
+#[derive(Clone, Debug, Serialize, Deserialize, PartialEq, Eq)]
+struct Case {
+    /// "lib" or "cli"
+    engine: String,
+    commits: Vec<CommitSpec>,
+    /// label of the working-copy commit
+    wc: usize,
+    /// operations applied one after the other (the oracle runs on each)
+    ops: Vec<OpSpec>,
+    /// cli engine: the working-copy commit's edits exist only on disk (the command snapshots them)
+    #[serde(default)]
+    dirty: bool,
+}
+
+fn ce(path: &str, edit: &str) -> (String, String) {
+    (path.to_string(), edit.to_string())
+}
+
+// ---------------------------------------------------------------------------------------
+// Content model used to *construct* inputs (never used by the oracle)
+// ---------------------------------------------------------------------------------------
+
+const MAX_LINES: usize = 4;
+
+#[derive(Clone, Debug, PartialEq, Eq)]
+enum PState {
+    Absent,
+    File(Vec<String>),
+    /// conflicted or not a regular file
+    Other,
+}
+
+#[derive(Clone, Copy, Debug, PartialEq, Eq)]
+enum Ed {
+    New,
+    Mod(usize),
+    Same(usize),
+    Ins(usize),
+    Del(usize),
+    Rm,
+}
+
+fn parse_ed(s: &str) -> Ed {
+    let idx = |p: &str| -> usize {
+        s[p.len()..].parse().unwrap_or_else(|_| machinery_failure(&format!("bad edit {s}")))
+    };
+    if s == "new" {
+        Ed::New
+    } else if s == "rm" {
+        Ed::Rm
+    } else if s.starts_with("mod") {
+        Ed::Mod(idx("mod"))
+    } else if s.starts_with("same") {
+        Ed::Same(idx("same"))
+    } else if s.starts_with("ins") {
+        Ed::Ins(idx("ins"))
+    } else if s.starts_with("del") {
+        Ed::Del(idx("del"))
+    } else {
+        machinery_failure(&format!("bad edit {s}"))
+    }
+}
+
+/// `None`: the edit is not applicable to this state (the case is not part of the space).
+fn apply_ed(state: &PState, ed: Ed, fresh: &mut dyn FnMut() -> String) -> Option<PState> {
+    match (ed, state) {
+        (Ed::New, _) => Some(PState::File(vec![fresh(), fresh(), fresh()])),
+        (Ed::Rm, PState::Absent) => None,
+        (Ed::Rm, _) => Some(PState::Absent),
+        (_, PState::Absent | PState::Other) => None,
+        (Ed::Mod(i), PState::File(lines)) => {
+            let mut lines = lines.clone();
+            *lines.get_mut(i)? = fresh();
+            Some(PState::File(lines))
+        }
+        (Ed::Same(i), PState::File(lines)) => {
+            let mut lines = lines.clone();
+            let new = format!("Z{i}\n");
+            if *lines.get(i)? == new {
+                return None;
+            }
+            lines[i] = new;
+            Some(PState::File(lines))
+        }
+        (Ed::Ins(i), PState::File(lines)) => {
+            if i > lines.len() || lines.len() >= MAX_LINES {
+                return None;
+            }
+            let mut lines = lines.clone();
+            lines.insert(i, fresh());
+            Some(PState::File(lines))
+        }
+        (Ed::Del(i), PState::File(lines)) => {
+            if i >= lines.len() {
+                return None;
+            }
+            let mut lines = lines.clone();
+            lines.remove(i);
+            Some(PState::File(lines))
+        }
+    }
+}
+
+fn rp(p: &str) -> RepoPathBuf {
+    RepoPathBuf::from_internal_string(p).unwrap()
+}
+
+fn read_state(tree: &MergedTree, path: &str) -> PState {
+    let path = rp(path);
+    let value = tree.path_value(&path).block_on().unwrap_or_else(|e| machinery_failure(&format!("path_value: {e}")));
+    match value.as_resolved() {
+        Some(None) => PState::Absent,
+        Some(Some(TreeValue::File { id, .. })) => {
+            let bytes = testutils::read_file(tree.store(), &path, id);
+            let text = String::from_utf8(bytes).unwrap();
+            PState::File(text.split_inclusive('\n').map(|l| l.to_string()).collect())
+        }
+        _ => PState::Other,
+    }
+}
+
+fn sig(t: i64) -> Signature {
+    Signature {
+        name: "Verif".to_string(),
+        email: "verif@example.com".to_string(),
+        timestamp: Timestamp { timestamp: MillisSinceEpoch(1_000_000_000_000 + 1000 * t), tz_offset: 0 },
+    }
+}
+
+fn change_id_of(label: usize) -> ChangeId {
+    ChangeId::from_bytes(&[label as u8 + 1; 16])
+}
+
+/// Applies the edits of `spec` to `base`. Returns the tree and the final state of every edited
+/// path, or `None` if an edit is not applicable.
+fn apply_edits(
+    mr: &MutableRepo,
+    base: &MergedTree,
+    spec: &CommitSpec,
+    label: usize,
+) -> Option<(MergedTree, Vec<(String, PState)>)> {
+    let letter = (b'A' + label as u8) as char;
+    let mut counter = 0;
+    let mut fresh = || {
+        counter += 1;
+        format!("{letter}{counter}\n")
+    };
+    let mut states: Vec<(String, PState)> = vec![];
+    for (path, edit) in &spec.edits {
+        let cur = match states.iter().find(|(p, _)| p == path) {
+            Some((_, s)) => s.clone(),
+            None => read_state(base, path),
+        };
+        let next = apply_ed(&cur, parse_ed(edit), &mut fresh)?;
+        match states.iter_mut().find(|(p, _)| p == path) {
+            Some(e) => e.1 = next,
+            None => states.push((path.clone(), next)),
+        }
+    }
+    if states.is_empty() {
+        return Some((base.clone(), states));
+    }
+    let mut builder = MergedTreeBuilder::new(base.clone());
+    for (path, state) in &states {
+        let path = rp(path);
+        let value = match state {
+            PState::Absent => Merge::absent(),
+            PState::File(lines) => {
+                let text = lines.concat();
+                let id = mr
+                    .store()
+                    .write_file(&path, &mut text.as_bytes())
+                    .block_on()
+                    .unwrap_or_else(|e| machinery_failure(&format!("write_file: {e}")));
+                Merge::normal(TreeValue::File { id, executable: false, copy_id: CopyId::placeholder() })
+            }
+            PState::Other => machinery_failure("edit produced a non-file state"),
+        };
+        builder.set_or_remove(path, value);
+    }
+    let tree = builder.write_tree().block_on().unwrap_or_else(|e| machinery_failure(&format!("write_tree: {e}")));
+    Some((tree, states))
+}
+
+struct Built {
+    commits: Vec<Commit>,
+    /// final states of the paths edited by the working-copy commit (for the dirty cli mode)
+    wc_disk: Vec<(String, PState)>,
+}
+
+/// Builds the stack in `mr`. `defer_wc_edits`: the working-copy commit is created without its
+/// edits (they are written to disk afterwards). `None` = some edit is not applicable.
+fn build_stack(mr: &mut MutableRepo, case: &Case, defer_wc_edits: bool) -> Option<Built> {
+    let root_id = mr.store().root_commit_id().clone();
+    let mut commits: Vec<Commit> = vec![];
+    let mut wc_disk = vec![];
+    for (label, spec) in case.commits.iter().enumerate() {
+        if spec.parents.iter().any(|p| *p >= label) {
+            machinery_failure("case: parents must be earlier labels");
+        }
+        let parent_commits: Vec<Commit> = spec.parents.iter().map(|p| commits[*p].clone()).collect();
+        let parent_ids: Vec<CommitId> =
+            if parent_commits.is_empty() { vec![root_id.clone()] } else { parent_commits.iter().map(|c| c.id().clone()).collect() };
+        let base = if parent_commits.is_empty() {
+            mr.store().root_commit().tree()
+        } else {
+            merge_commit_trees(&*mr, &parent_commits)
+                .block_on()
+                .unwrap_or_else(|e| machinery_failure(&format!("merge_commit_trees: {e}")))
+        };
+        let (tree, states) = apply_edits(mr, &base, spec, label)?;
+        let tree = if defer_wc_edits && label == case.wc {
+            wc_disk = states;
+            base
+        } else {
+            tree
+        };
+        let commit = mr
+            .new_commit(parent_ids, tree)
+            .set_change_id(change_id_of(label))
+            .set_description(if spec.nodesc { String::new() } else { format!("c{label}") })
+            .set_author(sig(label as i64))
+            .set_committer(sig(label as i64))
+            .write()
+            .block_on()
+            .unwrap_or_else(|e| machinery_failure(&format!("cannot write commit: {e}")));
+        commits.push(commit);
+    }
+    mr.set_wc_commit(WorkspaceName::DEFAULT.to_owned(), commits[case.wc].id().clone())
+        .unwrap_or_else(|e| machinery_failure(&format!("set_wc_commit: {e}")));
+    Some(Built { commits, wc_disk })
+}
+
+// ---------------------------------------------------------------------------------------
+// Observation of a repository state
+// ---------------------------------------------------------------------------------------
+
+struct Obs {
+    /// every visible commit except the root
+    nodes: BTreeMap<CommitId, Commit>,
+    wc: Option<Commit>,
+}
+
+impl Obs {
+    fn take(repo: &dyn Repo) -> Obs {
+        let store = repo.store();
+        let root = store.root_commit_id().clone();
+        let mut nodes = BTreeMap::new();
+        let mut todo: Vec<CommitId> = repo.view().heads().iter().cloned().collect();
+        while let Some(id) = todo.pop() {
+            if id == root || nodes.contains_key(&id) {
+                continue;
+            }
+            let commit = store.get_commit(&id).unwrap_or_else(|e| machinery_failure(&format!("get_commit: {e}")));
+            todo.extend(commit.parent_ids().iter().cloned());
+            nodes.insert(id, commit);
+        }
+        let wc = repo
+            .view()
+            .get_wc_commit_id(WorkspaceName::DEFAULT)
+            .map(|id| store.get_commit(id).unwrap_or_else(|e| machinery_failure(&format!("get_commit: {e}"))));
+        Obs { nodes, wc }
+    }
+
+    fn by_change(&self, change: &ChangeId) -> Vec<&Commit> {
+        self.nodes.values().filter(|c| c.change_id() == change).collect()
+    }
+
+    /// proper ancestors (without the root)
+    fn ancestors(&self, id: &CommitId) -> BTreeSet<CommitId> {
+        let mut out = BTreeSet::new();
+        let mut todo: Vec<CommitId> = self.nodes[id].parent_ids().to_vec();
+        while let Some(p) = todo.pop() {
+            if let Some(c) = self.nodes.get(&p)
+                && out.insert(p)
+            {
+                todo.extend(c.parent_ids().iter().cloned());
+            }
+        }
+        out
+    }
+
+    /// proper descendants
+    fn descendants(&self, id: &CommitId) -> BTreeSet<CommitId> {
+        let mut out: BTreeSet<CommitId> = BTreeSet::new();
+        loop {
+            let before = out.len();
+            for (cid, c) in &self.nodes {
+                if c.parent_ids().iter().any(|p| p == id || out.contains(p)) {
+                    out.insert(cid.clone());
+                }
+            }
+            if out.len() == before {
+                return out;
+            }
+        }
+    }
+
+    /// id-free rendering (change ids, parents' change ids, tree ids, descriptions, wc)
+    fn key(&self) -> String {
+        let mut rows: Vec<String> = self
+            .nodes
+            .values()
+            .map(|c| {
+                let mut ps: Vec<String> = c
+                    .parent_ids()
+                    .iter()
+                    .map(|p| self.nodes.get(p).map(|pc| pc.change_id().hex()).unwrap_or_else(|| "root".into()))
+                    .collect();
+                ps.sort();
+                format!("{}|{}|{:?}|{}", c.change_id().hex(), ps.join(","), c.tree_ids(), c.description().trim_end())
+            })
+            .collect();
+        rows.sort();
+        format!("{}#wc={}", rows.join(";"), self.wc.as_ref().map(|c| c.change_id().hex()).unwrap_or_default())
+    }
+}
+
+// ---------------------------------------------------------------------------------------
+// Tree comparison
+// ---------------------------------------------------------------------------------------
+
+fn term_key(t: &Option<TreeValue>) -> String {
+    match t {
+        None => "-".to_string(),
+        Some(TreeValue::File { id, executable, .. }) => format!("F{}{}", id.hex(), if *executable { "x" } else { "" }),
+        Some(other) => format!("{other:?}"),
+    }
+}
+
+/// Denotation of a path value: trivially resolved value, else the signed multiset of terms.
+fn canon(v: &MergedTreeValue) -> String {
+    if let Some(r) = v.as_resolved() {
+        return term_key(r);
+    }
+    let mut m: BTreeMap<String, i32> = BTreeMap::new();
+    for (i, t) in v.iter().enumerate() {
+        *m.entry(term_key(t)).or_insert(0) += if i % 2 == 0 { 1 } else { -1 };
+    }
+    m.retain(|_, c| *c != 0);
+    format!("{m:?}")
+}
+
+fn content_map(tree: &MergedTree) -> BTreeMap<String, String> {
+    tree.entries()
+        .map(|(p, v)| {
+            let v = v.unwrap_or_else(|e| machinery_failure(&format!("tree entry: {e}")));
+            (p.as_internal_file_string().to_string(), canon(&v))
+        })
+        .collect()
+}
+
+enum TreeCmp {
+    Same,
+    /// different tree ids, same content at every path (modulo the denotation of conflicts)
+    Representation,
+    Content(String),
+}
+
+fn tree_cmp(old: &MergedTree, new: &MergedTree) -> TreeCmp {
+    if old.tree_ids() == new.tree_ids() {
+        return TreeCmp::Same;
+    }
+    let (a, b) = (content_map(old), content_map(new));
+    if a == b {
+        return TreeCmp::Representation;
+    }
+    let mut diffs = vec![];
+    let paths: BTreeSet<&String> = a.keys().chain(b.keys()).collect();
+    for p in paths {
+        if a.get(p) != b.get(p) {
+            diffs.push(format!("{p}: {} -> {}", a.get(p).map_or("absent", |s| s.as_str()), b.get(p).map_or("absent", |s| s.as_str())));
+        }
+    }
+    TreeCmp::Content(diffs.join("; "))
+}
+
+fn dump(tree: &MergedTree) -> String {
+    let mut out = String::new();
+    for (p, v) in tree.entries() {
+        let v = v.unwrap();
+        let path = p.as_internal_file_string().to_string();
+        if let Some(Some(TreeValue::File { id, .. })) = v.as_resolved() {
+            let bytes = testutils::read_file(tree.store(), &p, id);
+            out.push_str(&format!("{path}={:?} ", String::from_utf8_lossy(&bytes)));
+        } else {
+            let mut terms = vec![];
+            for t in v.iter() {
+                match t {
+                    Some(TreeValue::File { id, .. }) => {
+                        terms.push(format!("{:?}", String::from_utf8_lossy(&testutils::read_file(tree.store(), &p, id))));
+                    }
+                    other => terms.push(format!("{other:?}")),
+                }
+            }
+            out.push_str(&format!("{path}=conflict[{}] ", terms.join(", ")));
+        }
+    }
+    out
+}
+
+// ---------------------------------------------------------------------------------------
+// Oracle
+// ---------------------------------------------------------------------------------------
+
+#[derive(Default)]
+struct Tally {
+    cases: Counter,
+    invalid: Counter,
+    transitions: Counter,
+    per_op: Mutex<BTreeMap<String, [u64; 6]>>, // transitions, moved, with descendants, with joined descendants, wc above, nothing moved
+    moved: Counter,
+    nothing_moved: Counter,
+    descendants_checked: Counter,
+    joined_descendants_checked: Counter,
+    descendant_parent_tree_changed: Counter,
+    conflicted_descendants: Counter,
+    conflicted_top: Counter,
+    conflicted_receiver_after: Counter,
+    between_rewritten: Counter,
+    wc_is_source: Counter,
+    wc_is_descendant: Counter,
+    wc_below_or_aside: Counter,
+    new_wc_commit_created: Counter,
+    source_abandoned_in_absorb: Counter,
+    absorb_receivers_1: Counter,
+    absorb_receivers_2plus: Counter,
+    absorb_source_emptied: Counter,
+    absorb_source_is_merge: Counter,
+    squash_dest_is_merge: Counter,
+    split_proper: Counter,
+    split_full: Counter,
+    split_empty: Counter,
+    unrelated_commits_checked: Counter,
+    side_branches_rebased: Counter,
+    representation_only_differences: Counter,
+    op_errors: Counter,
+    cli_refused: Counter,
+    cli_snapshot_ops: Counter,
+    op_error_samples: Mutex<BTreeMap<String, u64>>,
+    states: Mutex<HashSet<u64>>,
+}
+
+impl Tally {
+    fn per_op_add(&self, op: &str, idx: usize) {
+        self.per_op.lock().unwrap().entry(op.to_string()).or_insert([0; 6])[idx] += 1;
+    }
+    fn note_error(&self, class: String) {
+        *self.op_error_samples.lock().unwrap().entry(class).or_insert(0) += 1;
+    }
+    fn state(&self, key: &str) {
+        self.states.lock().unwrap().insert(vcommon::fnv(key.as_bytes()));
+    }
+}
+
+type Fail = (String, String);
+
+struct Transition<'a> {
+    engine: &'a str,
+    op: &'a OpSpec,
+    /// old commits by label (labels of the case; later-created commits have none)
+    x: &'a Commit,
+    /// absorb: old commits that may receive hunks
+    candidates: Vec<CommitId>,
+    before: &'a Obs,
+    after: &'a Obs,
+}
+
+/// Evaluates clauses (a)-(c). Returns the violations found and whether the transition is
+/// non-trivial (a change really moved down and something sits above the source).
+fn oracle(t: &Transition, tally: &Tally) -> (Vec<Fail>, bool) {
+    let mut fails: Vec<Fail> = vec![];
+    let opn = t.op.name();
+    let pre = format!("C09/{}/{}", t.engine, opn);
+    let (before, after) = (t.before, t.after);
+    let x = t.x;
+    tally.transitions.inc();
+    tally.per_op_add(opn, 0);
+    tally.state(&before.key());
+    tally.state(&after.key());
+
+    let anc_x = before.ancestors(x.id());
+    let desc_x = before.descendants(x.id());
+    let old_change_ids: BTreeSet<ChangeId> = before.nodes.values().map(|c| c.change_id().clone()).collect();
+    let new_commits: Vec<&Commit> = after.nodes.values().filter(|c| !old_change_ids.contains(c.change_id())).collect();
+
+    // Did anything move? (vacuity only)
+    let mut receivers_changed = 0;
+    for a in &anc_x {
+        let old = &before.nodes[a];
+        if let [new] = after.by_change(old.change_id())[..]
+            && new.tree_ids() != old.tree_ids()
+        {
+            receivers_changed += 1;
+            if new.has_conflict() {
+                tally.conflicted_receiver_after.inc();
+            }
+        }
+    }
+    let unchanged = before.nodes.keys().eq(after.nodes.keys());
+    let mut moved = receivers_changed > 0;
+
+    // (a) the topmost resulting commit
+    let mut top: Option<(&Commit, &str)> = None;
+    match t.op {
+        OpSpec::Squash { .. } => {
+            let p = &before.nodes[&x.parent_ids()[0]];
+            if p.parent_ids().len() > 1 {
+                tally.squash_dest_is_merge.inc();
+            }
+            match after.by_change(p.change_id())[..] {
+                [p2] => top = Some((p2, "rewritten-parent")),
+                _ => fails.push((format!("{pre}/top-missing"), format!("the squash destination {} has no unique successor", p.change_id().hex()))),
+            }
+            moved = true;
+        }
+        OpSpec::Absorb { .. } => {
+            if x.parent_ids().len() > 1 {
+                tally.absorb_source_is_merge.inc();
+            }
+            match receivers_changed {
+                0 => {}
+                1 => tally.absorb_receivers_1.inc(),
+                _ => tally.absorb_receivers_2plus.inc(),
+            }
+            match after.by_change(x.change_id())[..] {
+                [x2] => {
+                    top = Some((x2, "source"));
+                    if !unchanged && x2.parent_ids().len() == 1 {
+                        let p2 = after.nodes.get(&x2.parent_ids()[0]);
+                        if p2.is_some_and(|p2| p2.tree_ids() == x2.tree_ids()) {
+                            tally.absorb_source_emptied.inc();
+                        }
+                    }
+                }
+                [] => {
+                    tally.source_abandoned_in_absorb.inc();
+                    if let [pid] = x.parent_ids() {
+                        let p = &before.nodes[pid];
+                        match after.by_change(p.change_id())[..] {
+                            [p2] => top = Some((p2, "parent-of-abandoned-source")),
+                            _ => fails.push((format!("{pre}/top-missing"), "the parent of the abandoned source has no unique successor".to_string())),
+                        }
+                    }
+                }
+                _ => fails.push((format!("{pre}/top-missing"), "the source became divergent".to_string())),
+            }
+        }
+        OpSpec::Split { .. } => {
+            match after.by_change(x.change_id())[..] {
+                [first] => {
+                    let seconds: Vec<&&Commit> =
+                        new_commits.iter().filter(|c| c.parent_ids() == [first.id().clone()]).collect();
+                    match seconds[..] {
+                        [second] => {
+                            top = Some((second, "second-commit"));
+                            let parent_tree_ids = if let [pid] = x.parent_ids() {
+                                Some(match before.nodes.get(pid) {
+                                    Some(p) => p.tree_ids().clone(),
+                                    None => Merge::resolved(x.store().empty_tree_id().clone()),
+                                })
+                            } else {
+                                None
+                            };
+                            if first.tree_ids() == x.tree_ids() {
+                                tally.split_full.inc();
+                            } else if parent_tree_ids.as_ref() == Some(first.tree_ids()) {
+                                tally.split_empty.inc();
+                            } else {
+                                tally.split_proper.inc();
+                                moved = true;
+                            }
+                        }
+                        _ => fails.push((format!("{pre}/top-missing"), format!("{} new commits on top of the first commit", seconds.len()))),
+                    }
+                }
+                _ => fails.push((format!("{pre}/top-missing"), "the split commit has no unique successor".to_string())),
+            }
+        }
+    }
+    if let Some((top, role)) = top {
+        if x.has_conflict() {
+            tally.conflicted_top.inc();
+        }
+        match tree_cmp(&x.tree(), &top.tree()) {
+            TreeCmp::Same => {}
+            TreeCmp::Representation => {
+                tally.representation_only_differences.inc();
+                fails.push((
+                    format!("{pre}/top-tree/{role}/representation-differs"),
+                    format!("source tree ids {:?}, topmost resulting commit has {:?} (same content)", x.tree_ids(), top.tree_ids()),
+                ));
+            }
+            TreeCmp::Content(d) => fails.push((
+                format!("{pre}/top-tree/{role}/content-differs"),
+                format!("the topmost resulting commit ({role}) differs from the source's old tree: {d}; old [{}] new [{}]", dump(&x.tree()), dump(&top.tree())),
+            )),
+        }
+    }
+
+    // (b) descendants
+    if !desc_x.is_empty() {
+        tally.per_op_add(opn, 2);
+    }
+    let mut any_joined = false;
+    for d in &desc_x {
+        let old = &before.nodes[d];
+        // does the descendant join a branch that is not comparable with the source?
+        let joined = before.ancestors(d).iter().any(|a| a != x.id() && !anc_x.contains(a) && !desc_x.contains(a));
+        let shape = if joined { "joins-side-branch" } else { "chain" };
+        match after.by_change(old.change_id())[..] {
+            [new] => {
+                tally.descendants_checked.inc();
+                if joined {
+                    tally.joined_descendants_checked.inc();
+                    any_joined = true;
+                }
+                if old.has_conflict() {
+                    tally.conflicted_descendants.inc();
+                }
+                let old_parent_trees: Vec<_> = old.parent_ids().iter().map(|p| before.nodes.get(p).map(|c| c.tree_ids().clone())).collect();
+                let new_parent_trees: Vec<_> = new.parent_ids().iter().map(|p| after.nodes.get(p).map(|c| c.tree_ids().clone())).collect();
+                if old_parent_trees != new_parent_trees {
+                    tally.descendant_parent_tree_changed.inc();
+                }
+                match tree_cmp(&old.tree(), &new.tree()) {
+                    TreeCmp::Same => {}
+                    TreeCmp::Representation => {
+                        tally.representation_only_differences.inc();
+                        fails.push((
+                            format!("{pre}/descendant-tree/{shape}/representation-differs"),
+                            format!("descendant {}: tree ids {:?} became {:?} (same content)", old.description().trim(), old.tree_ids(), new.tree_ids()),
+                        ));
+                    }
+                    TreeCmp::Content(diff) => fails.push((
+                        format!("{pre}/descendant-tree/{shape}/content-differs"),
+                        format!("descendant {:?} changed: {diff}; old [{}] new [{}]", old.description().trim(), dump(&old.tree()), dump(&new.tree())),
+                    )),
+                }
+            }
+            ref other => fails.push((
+                format!("{pre}/descendant-lost/{shape}"),
+                format!("descendant {:?} has {} successors", old.description().trim(), other.len()),
+            )),
+        }
+    }
+    if any_joined {
+        tally.per_op_add(opn, 3);
+    }
+    // the working-copy commit
+    if let Some(old_wc) = &before.wc {
+        let above = old_wc.id() == x.id() || desc_x.contains(old_wc.id());
+        if old_wc.id() == x.id() {
+            tally.wc_is_source.inc();
+        } else if above {
+            tally.wc_is_descendant.inc();
+        } else {
+            tally.wc_below_or_aside.inc();
+        }
+        if above {
+            tally.per_op_add(opn, 4);
+            match &after.wc {
+                None => fails.push((format!("{pre}/wc-lost"), "no working-copy commit after the operation".to_string())),
+                Some(new_wc) => {
+                    if !old_change_ids.contains(new_wc.change_id()) && !matches!(t.op, OpSpec::Split { .. }) {
+                        tally.new_wc_commit_created.inc();
+                    }
+                    match tree_cmp(&old_wc.tree(), &new_wc.tree()) {
+                        TreeCmp::Same => {}
+                        TreeCmp::Representation => {
+                            tally.representation_only_differences.inc();
+                            fails.push((
+                                format!("{pre}/wc-tree/representation-differs"),
+                                format!("working-copy tree ids {:?} became {:?} (same content)", old_wc.tree_ids(), new_wc.tree_ids()),
+                            ));
+                        }
+                        TreeCmp::Content(diff) => fails.push((
+                            format!("{pre}/wc-tree/content-differs"),
+                            format!("the working-copy commit's tree changed: {diff}; old [{}] new [{}]", dump(&old_wc.tree()), dump(&new_wc.tree())),
+                        )),
+                    }
+                }
+            }
+        }
+    }
+
+    // (c) commits outside the cone of the possible receivers keep their ids
+    let roots: Vec<CommitId> = match t.op {
+        OpSpec::Squash { .. } => vec![x.parent_ids()[0].clone()],
+        OpSpec::Split { .. } => vec![x.id().clone()],
+        OpSpec::Absorb { .. } => t.candidates.iter().filter(|c| anc_x.contains(*c)).cloned().collect(),
+    };
+    let mut cone: BTreeSet<CommitId> = BTreeSet::new();
+    for r in &roots {
+        cone.insert(r.clone());
+        cone.extend(before.descendants(r));
+    }
+    for (id, c) in &before.nodes {
+        if cone.contains(id) {
+            if !anc_x.contains(id) && id != x.id() && !desc_x.contains(id) && !after.nodes.contains_key(id) {
+                tally.side_branches_rebased.inc();
+            }
+            if anc_x.contains(id) && !roots.contains(id) && !after.nodes.contains_key(id) {
+                tally.between_rewritten.inc();
+            }
+            continue;
+        }
+        tally.unrelated_commits_checked.inc();
+        if !after.nodes.contains_key(id) {
+            fails.push((
+                format!("{pre}/unrelated-commit-rewritten"),
+                format!("commit {:?} is not a descendant of any possible receiver but was rewritten or hidden", c.description().trim()),
+            ));
+        }
+    }
+
+    if moved {
+        tally.moved.inc();
+        tally.per_op_add(opn, 1);
+    } else {
+        tally.nothing_moved.inc();
+        tally.per_op_add(opn, 5);
+    }
+    let nontrivial = moved && (!desc_x.is_empty() || before.wc.as_ref().is_some_and(|w| w.id() == x.id()));
+    (fails, nontrivial)
+}
+
+// ---------------------------------------------------------------------------------------
+// lib engine
+// ---------------------------------------------------------------------------------------
+
+struct LibWorld {
+    _test_repo: TestRepo,
+    repo: Arc<ReadonlyRepo>,
+}
+
+thread_local! {
+    static LIB_WORLD: RefCell<Option<Rc<LibWorld>>> = const { RefCell::new(None) };
+}
+
+fn harness_settings() -> UserSettings {
+    let mut config = testutils::base_user_config();
+    config.add_layer(
+        ConfigLayer::parse(
+            ConfigSource::User,
+            "debug.commit-timestamp = \"2001-02-03T04:05:06+07:00\"\ndebug.operation-timestamp = \"2001-02-03T04:05:06+07:00\"\n",
+        )
+        .unwrap(),
+    );
+    UserSettings::from_config(config).unwrap()
+}
+
+fn lib_world() -> Rc<LibWorld> {
+    LIB_WORLD.with(|w| {
+        w.borrow_mut()
+            .get_or_insert_with(|| {
+                let test_repo = TestRepo::init_with_settings(&harness_settings());
+                let repo = test_repo.repo.clone();
+                Rc::new(LibWorld { _test_repo: test_repo, repo })
+            })
+            .clone()
+    })
+}
+
+/// Finds the current version of the commit created with label `l`.
+fn current_by_label(obs: &Obs, l: usize) -> Option<Commit> {
+    match obs.by_change(&change_id_of(l))[..] {
+        [c] => Some(c.clone()),
+        _ => None,
+    }
+}
+
+enum Exec {
+    Done,
+    /// preconditions of the operation do not hold in this state
+    NotEnabled,
+    /// jj returned an error or panicked (not a verdict about this property)
+    Error(String),
+}
+
+fn exec_lib_op(mr: &mut MutableRepo, op: &OpSpec, before: &Obs) -> (Exec, Vec<CommitId>) {
+    let Some(x) = current_by_label(before, op.x()) else {
+        return (Exec::NotEnabled, vec![]);
+    };
+    match op {
+        OpSpec::Squash { .. } => {
+            let [pid] = x.parent_ids() else { return (Exec::NotEnabled, vec![]) };
+            let Some(p) = before.nodes.get(pid).cloned() else { return (Exec::NotEnabled, vec![]) };
+            let r = catch(|| -> Result<(), String> {
+                let parent_tree = x.parent_tree(&*mr).block_on().map_err(|e| format!("{e}"))?;
+                let selection = CommitWithSelection { commit: x.clone(), selected_tree: x.tree(), parent_tree };
+                let squashed = squash_commits(mr, &[selection], &p, false).block_on().map_err(|e| format!("{e}"))?;
+                if let Some(squashed) = squashed {
+                    squashed
+                        .commit_builder
+                        .set_description(p.description().to_owned())
+                        .write()
+                        .block_on()
+                        .map_err(|e| format!("{e}"))?;
+                }
+                mr.rebase_descendants().block_on().map_err(|e| format!("{e}"))?;
+                Ok(())
+            });
+            match r {
+                Ok(Ok(())) => (Exec::Done, vec![]),
+                Ok(Err(e)) => (Exec::Error(format!("squash error: {e}")), vec![]),
+                Err(e) => (Exec::Error(format!("squash panic: {e}")), vec![]),
+            }
+        }
+        OpSpec::Absorb { into, .. } => {
+            let candidates: Vec<CommitId> = match into {
+                None => before.nodes.keys().cloned().collect(),
+                Some(labels) => {
+                    let mut ids = vec![];
+                    for l in labels {
+                        match current_by_label(before, *l) {
+                            Some(c) => ids.push(c.id().clone()),
+                            None => return (Exec::NotEnabled, vec![]),
+                        }
+                    }
+                    ids
+                }
+            };
+            let destinations = match into {
+                None => RevsetExpression::root().negated(),
+                Some(_) => RevsetExpression::commits(candidates.clone()),
+            };
+            let r = catch(|| -> Result<(), String> {
+                let source = AbsorbSource::from_commit(&*mr, x.clone()).block_on().map_err(|e| format!("{e}"))?;
+                let selected = split_hunks_to_trees(&*mr, &source, &destinations, &EverythingMatcher)
+                    .block_on()
+                    .map_err(|e| format!("{e}"))?;
+                absorb_hunks(mr, &source, selected.target_commits).block_on().map_err(|e| format!("{e}"))?;
+                mr.rebase_descendants().block_on().map_err(|e| format!("{e}"))?;
+                Ok(())
+            });
+            match r {
+                Ok(Ok(())) => (Exec::Done, candidates),
+                Ok(Err(e)) => (Exec::Error(format!("absorb error: {e}")), candidates),
+                Err(e) => (Exec::Error(format!("absorb panic: {e}")), candidates),
+            }
+        }
+        OpSpec::Split { .. } => machinery_failure("split is a CLI operation (cmd_split); use the cli engine"),
+    }
+}
+
+fn error_class(msg: &str) -> String {
+    let first = msg.lines().next().unwrap_or("");
+    // mask hex ids
+    let masked: String = first
+        .split(' ')
+        .map(|w| {
+            let core = w.trim_matches(|c: char| !c.is_ascii_alphanumeric());
+            if core.len() >= 8 && core.chars().all(|c| c.is_ascii_hexdigit() || ('k'..='z').contains(&c)) { "<id>" } else { w }
+        })
+        .collect::<Vec<_>>()
+        .join(" ");
+    masked.chars().take(160).collect()
+}
+
+/// Runs one lib case. Returns (valid, non-trivial).
+fn run_lib_case(ctx: &Ctx, tally: &Tally, case: &Case) -> (bool, bool) {
+    let world = lib_world();
+    let mut tx = world.repo.start_transaction();
+    let mr = tx.repo_mut();
+    let Some(_built) = build_stack(mr, case, false) else {
+        tally.invalid.inc();
+        return (false, false);
+    };
+    let mut nontrivial = false;
+    for (k, op) in case.ops.iter().enumerate() {
+        let before = Obs::take(&*mr);
+        let Some(x) = current_by_label(&before, op.x()) else {
+            tally.invalid.inc();
+            return (k > 0, nontrivial);
+        };
+        let (exec, candidates) = exec_lib_op(mr, op, &before);
+        match exec {
+            Exec::NotEnabled => {
+                tally.invalid.inc();
+                return (k > 0, nontrivial);
+            }
+            Exec::Error(e) => {
+                tally.op_errors.inc();
+                tally.note_error(error_class(&e));
+                return (true, nontrivial);
+            }
+            Exec::Done => {}
+        }
+        let after = Obs::take(&*mr);
+        let t = Transition { engine: "lib", op, x: &x, candidates, before: &before, after: &after };
+        let (fails, nt) = oracle(&t, tally);
+        nontrivial |= nt;
+        for (sig, msg) in fails {
+            let mut c = case.clone();
+            c.ops.truncate(k + 1);
+            ctx.violation(&sig, msg, serde_json::to_value(&c).unwrap());
+        }
+    }
+    (true, nontrivial)
+}
+
+// ---------------------------------------------------------------------------------------
+// cli engine
+// ---------------------------------------------------------------------------------------
+
+static CLI_SEQ: AtomicUsize = AtomicUsize::new(0);
+static CLI_NANOS: [std::sync::atomic::AtomicU64; 4] = [const { std::sync::atomic::AtomicU64::new(0) }; 4];
+
+fn phase(i: usize, t0: std::time::Instant) -> std::time::Instant {
+    CLI_NANOS[i].fetch_add(t0.elapsed().as_nanos() as u64, Ordering::Relaxed);
+    std::time::Instant::now()
+}
+
+fn jjv_bin() -> PathBuf {
+    match std::env::var_os("JJV_BIN") {
+        Some(p) if Path::new(&p).is_file() => PathBuf::from(p),
+        _ => machinery_failure("JJV_BIN does not name the jj binary (run through ./check)"),
+    }
+}
+
+struct CliRun {
+    status: Option<i32>,
+    stderr: String,
+}
+
+fn run_jj(jjv: &Path, env_root: &Path, ws_root: &Path, command_number: i64, args: &[String]) -> CliRun {
+    let mut cmd = std::process::Command::new(jjv);
+    cmd.current_dir(ws_root);
+    cmd.env_clear();
+    cmd.env("COLUMNS", "100");
+    cmd.env("PATH", "/usr/bin:/bin");
+    cmd.env("HOME", env_root.join("home"));
+    cmd.env("TMPDIR", env_root.join("tmp"));
+    cmd.env("GIT_CONFIG_SYSTEM", "/dev/null");
+    cmd.env("GIT_CONFIG_GLOBAL", "/dev/null");
+    cmd.env("JJ_CONFIG", env_root.join("config.toml"));
+    cmd.env("JJ_USER", "Test User");
+    cmd.env("JJ_EMAIL", "test.user@example.com");
+    cmd.env("JJ_OP_HOSTNAME", "host.example.com");
+    cmd.env("JJ_OP_USERNAME", "test-username");
+    cmd.env("JJ_TZ_OFFSET_MINS", "660");
+    cmd.env("RAYON_NUM_THREADS", "1");
+    cmd.env("JJ_RANDOMNESS_SEED", command_number.to_string());
+    // 2001-02-03T04:05:06+07:00 plus one second per command
+    let secs = 981_147_906 + command_number;
+    let ts = chrono::DateTime::from_timestamp(secs, 0).unwrap().to_rfc3339();
+    cmd.env("JJ_TIMESTAMP", &ts);
+    cmd.env("JJ_OP_TIMESTAMP", &ts);
+    cmd.args(args);
+    cmd.stdin(std::process::Stdio::null());
+    let out = cmd.output().unwrap_or_else(|e| machinery_failure(&format!("cannot run {}: {e}", jjv.display())));
+    CliRun { status: out.status.code(), stderr: String::from_utf8_lossy(&out.stderr).to_string() }
+}
+
+fn cli_args(op: &OpSpec, before_commits: &[Commit]) -> Vec<String> {
+    // change ids survive the snapshot the command may take first (commit ids do not)
+    let _ = before_commits;
+    let hex = |l: usize| change_id_of(l).reverse_hex();
+    let mut args: Vec<String> = vec![];
+    match op {
+        OpSpec::Squash { x } => {
+            args.extend(["squash".into(), "-r".into(), hex(*x), "-u".into()]);
+        }
+        OpSpec::Absorb { x, into } => {
+            args.extend(["absorb".into(), "--from".into(), hex(*x)]);
+            if let Some(labels) = into {
+                for l in labels {
+                    args.extend(["--into".into(), hex(*l)]);
+                }
+            }
+        }
+        OpSpec::Split { x, paths } => {
+            args.extend(["split".into(), "-r".into(), hex(*x), "-m".into(), "selected".into()]);
+            for p in paths {
+                args.push(format!("root-file:\"{p}\""));
+            }
+        }
+    }
+    args
+}
+
+/// Runs one cli case (exactly one operation). Returns (valid, non-trivial).
+fn run_cli_case(ctx: &Ctx, tally: &Tally, case: &Case) -> (bool, bool) {
+    let [op] = &case.ops[..] else { machinery_failure("cli cases have exactly one operation") };
+    let jjv = jjv_bin();
+    let env_root = ctx.scratch().join(format!("cli{}", CLI_SEQ.fetch_add(1, Ordering::Relaxed)));
+    let ws_root = env_root.join("ws");
+    for d in ["home", "tmp", "ws"] {
+        std::fs::create_dir_all(env_root.join(d)).unwrap_or_else(|e| machinery_failure(&format!("cannot create scratch dir: {e}")));
+    }
+    std::fs::write(
+        env_root.join("config.toml"),
+        "[ui]\neditor = \"/bin/false\"\npaginate = \"never\"\ncolor = \"never\"\n[git]\ncolocate = false\n",
+    )
+    .unwrap();
+    let cleanup = |valid, nt| {
+        let _ = std::fs::remove_dir_all(&env_root);
+        (valid, nt)
+    };
+    let settings = harness_settings();
+    let t0 = std::time::Instant::now();
+    let (mut workspace, repo) = Workspace::init_internal_git(&settings, &ws_root, gix::hash::Kind::default())
+        .block_on()
+        .unwrap_or_else(|e| machinery_failure(&format!("cannot init workspace: {e}")));
+    let t0 = phase(0, t0);
+    let mut tx = repo.start_transaction();
+    let Some(built) = build_stack(tx.repo_mut(), case, case.dirty) else {
+        tally.invalid.inc();
+        return cleanup(false, false);
+    };
+    // hide the initial empty working-copy commit
+    let initial_wc = repo.view().get_wc_commit_id(WorkspaceName::DEFAULT).cloned();
+    if let Some(id) = initial_wc {
+        let c = repo.store().get_commit(&id).unwrap();
+        tx.repo_mut().record_abandoned_commit(&c);
+        tx.repo_mut().rebase_descendants().block_on().unwrap();
+        tx.repo_mut()
+            .set_wc_commit(WorkspaceName::DEFAULT.to_owned(), built.commits[case.wc].id().clone())
+            .unwrap();
+    }
+    let repo = tx.commit("setup").block_on().unwrap_or_else(|e| machinery_failure(&format!("cannot commit setup: {e}")));
+    workspace
+        .check_out(repo.op_id().clone(), None, &built.commits[case.wc])
+        .block_on()
+        .unwrap_or_else(|e| machinery_failure(&format!("cannot check out: {e}")));
+    drop(workspace);
+    let setup_op_id = repo.op_id().clone();
+    for (path, state) in &built.wc_disk {
+        let disk_path = ws_root.join(path);
+        match state {
+            PState::Absent => {
+                let _ = std::fs::remove_file(&disk_path);
+            }
+            PState::File(lines) => {
+                std::fs::create_dir_all(disk_path.parent().unwrap()).unwrap();
+                std::fs::write(&disk_path, lines.concat()).unwrap();
+            }
+            PState::Other => machinery_failure("non-file state for the disk"),
+        }
+    }
+    let args = cli_args(op, &built.commits);
+    let t0 = phase(1, t0);
+    let run = run_jj(&jjv, &env_root, &ws_root, 1, &args);
+    let t0 = phase(2, t0);
+    if run.status != Some(0) {
+        tally.cli_refused.inc();
+        tally.note_error(format!("jj {} exit {:?}: {}", op.name(), run.status, error_class(&run.stderr)));
+        return cleanup(true, false);
+    }
+    // Read the states before and after from the operation log.
+    let loader = RepoLoader::init_from_file_system(&settings, &ws_root.join(".jj").join("repo"), &default_backend_factories())
+        .unwrap_or_else(|e| machinery_failure(&format!("cannot load the repo: {e}")));
+    let after_repo = loader.load_at_head().block_on().unwrap_or_else(|e| machinery_failure(&format!("cannot load at head: {e}")));
+    let head_op = after_repo.operation().clone();
+    let mut chain: Vec<jj_lib::operation::Operation> = vec![head_op.clone()];
+    while chain.last().unwrap().id() != &setup_op_id {
+        let parents = chain.last().unwrap().parents().block_on().unwrap();
+        let [parent] = &parents[..] else { machinery_failure("operation log is not linear") };
+        chain.push(parent.clone());
+        if chain.len() > 4 {
+            machinery_failure("unexpected operations after the setup operation");
+        }
+    }
+    chain.reverse(); // setup, [snapshot], [command]
+    let descr = |o: &jj_lib::operation::Operation| o.metadata().description.clone();
+    let expected_prefix = match op {
+        OpSpec::Squash { .. } => "squash commits into",
+        OpSpec::Absorb { .. } => "absorb changes into",
+        OpSpec::Split { .. } => "split commit",
+    };
+    let mut idx = 1;
+    if chain.get(idx).is_some_and(|o| descr(o).starts_with("snapshot working copy")) {
+        tally.cli_snapshot_ops.inc();
+        idx += 1;
+    }
+    let before_op = chain[idx - 1].clone();
+    match chain.get(idx) {
+        None => {}
+        Some(o) if descr(o).starts_with(expected_prefix) && idx + 1 == chain.len() => {}
+        Some(o) => machinery_failure(&format!("unexpected operation {:?} after jj {}", descr(o), args.join(" "))),
+    }
+    if case.dirty && !built.wc_disk.is_empty() && idx == 1 {
+        machinery_failure("the dirty working copy was not snapshotted");
+    }
+    let before_repo = loader.load_at(&before_op).block_on().unwrap_or_else(|e| machinery_failure(&format!("cannot load before-state: {e}")));
+    let before = Obs::take(before_repo.as_ref());
+    let after = Obs::take(after_repo.as_ref());
+    let Some(x) = current_by_label(&before, op.x()) else { machinery_failure("source commit not found in the before-state") };
+    let candidates: Vec<CommitId> = match op {
+        OpSpec::Absorb { into: Some(labels), .. } => labels.iter().map(|l| current_by_label(&before, *l).unwrap().id().clone()).collect(),
+        _ => before.nodes.keys().cloned().collect(),
+    };
+    let t = Transition { engine: "cli", op, x: &x, candidates, before: &before, after: &after };
+    let (fails, nt) = oracle(&t, tally);
+    phase(3, t0);
+    for (sig, msg) in fails {
+        ctx.violation(&sig, format!("jj {}: {msg}", args.join(" ")), serde_json::to_value(case).unwrap());
+    }
+    cleanup(true, nt)
+}
+
+fn run_case(ctx: &Ctx, tally: &Tally, case: &Case) -> (bool, bool) {
+    tally.cases.inc();
+    match case.engine.as_str() {
+        "lib" => run_lib_case(ctx, tally, case),
+        "cli" => run_cli_case(ctx, tally, case),
+        other => machinery_failure(&format!("unknown engine {other}")),
+    }
+}
+
+// ---------------------------------------------------------------------------------------
+// Enumeration families
+// ---------------------------------------------------------------------------------------
+
+type Edits = Vec<(String, String)>;
+
+fn edits(list: &[(&str, &str)]) -> Edits {
+    list.iter().map(|(p, e)| ce(p, e)).collect()
+}
+
+/// Every non-empty subset of `items` (as index masks), smallest first.
+fn nonempty_subsets<T: Clone>(items: &[T]) -> Vec<Vec<T>> {
+    let mut out: Vec<Vec<T>> = (1u32..(1 << items.len()))
+        .map(|m| items.iter().enumerate().filter(|(i, _)| m & (1 << i) != 0).map(|(_, t)| t.clone()).collect())
+        .collect();
+    out.sort_by_key(|s: &Vec<T>| s.len());
+    out
+}
+
+/// proper ancestors of `x` in a spec list
+fn spec_ancestors(commits: &[CommitSpec], x: usize) -> Vec<usize> {
+    let mut out = BTreeSet::new();
+    let mut todo = commits[x].parents.clone();
+    while let Some(p) = todo.pop() {
+        if out.insert(p) {
+            todo.extend(commits[p].parents.iter().cloned());
+        }
+    }
+    out.into_iter().collect()
+}
+
+/// The operations of the lib engine enabled on a stack: squash of every single-parent commit
+/// with a non-root parent; absorb from every commit with at least one ancestor, into every
+/// destination set of the given family.
+fn lib_ops(commits: &[CommitSpec], all_subsets: bool) -> Vec<OpSpec> {
+    let mut ops = vec![];
+    for x in 0..commits.len() {
+        if commits[x].parents.len() == 1 {
+            ops.push(OpSpec::Squash { x });
+        }
+        let anc = spec_ancestors(commits, x);
+        if anc.is_empty() {
+            continue;
+        }
+        ops.push(OpSpec::Absorb { x, into: None });
+        if anc.len() >= 2 {
+            if all_subsets {
+                for s in nonempty_subsets(&anc) {
+                    if s.len() < anc.len() {
+                        ops.push(OpSpec::Absorb { x, into: Some(s) });
+                    }
+                }
+            } else {
+                // each single ancestor and each complement of a single ancestor
+                for a in &anc {
+                    ops.push(OpSpec::Absorb { x, into: Some(vec![*a]) });
+                }
+                if anc.len() >= 3 {
+                    for a in &anc {
+                        ops.push(OpSpec::Absorb { x, into: Some(anc.iter().filter(|b| *b != a).cloned().collect()) });
+                    }
+                }
+            }
+        }
+    }
+    ops
+}
+
+struct Family {
+    name: String,
+    description: String,
+    /// number of stacks
+    size: u64,
+    /// stack index -> the cases on that stack
+    gen_cases: Box<dyn Fn(u64) -> Vec<Case> + Sync + Send>,
+}
+
+/// Line-level alphabet on one file.
+fn line_alphabet(path: &str) -> Vec<Edits> {
+    let mut out: Vec<Edits> = vec![];
+    for e in ["mod0", "mod1", "mod2", "ins0", "ins1", "ins2", "ins3", "del0", "del1", "del2", "new", "rm"] {
+        out.push(edits(&[(path, e)]));
+    }
+    for (a, b) in [("mod0", "mod1"), ("mod1", "mod2"), ("mod0", "mod2")] {
+        out.push(edits(&[(path, a), (path, b)]));
+    }
+    out
+}
+
+/// F1: linear stacks over the line-level alphabet.
+fn family_linear(n: usize, all_subsets: bool) -> Family {
+    let mut alphabet = line_alphabet("f");
+    alphabet.push(edits(&[("g", "new")]));
+    alphabet.push(edits(&[("f", "mod1"), ("g", "mod0")]));
+    alphabet.push(vec![]);
+    let dims = vec![alphabet.len(); n - 1];
+    let size = product(&dims);
+    let description = format!(
+        "linear stacks of {n} commits: c0 creates f and g (3 lines each), every later commit applies one of {} edits \
+         (12 single line-level edits of f, 3 two-line edits of f, rewrite of g, f+g, empty change); the last commit is the \
+         working-copy commit without description; operations: squash of every commit c1.. into its parent, absorb from every \
+         commit c1.. into {}",
+        alphabet.len(),
+        if all_subsets { "every non-empty subset of its ancestors" } else { "all commits, each single ancestor, each complement of a single ancestor" }
+    );
+    Family {
+        name: format!("lib-linear-{n}"),
+        description,
+        size,
+        gen_cases: Box::new(move |idx| {
+            let digits = decode(idx, &dims);
+            let mut commits = vec![CommitSpec { parents: vec![], edits: edits(&[("f", "new"), ("g", "new")]), nodesc: false }];
+            for (i, d) in digits.iter().enumerate() {
+                commits.push(CommitSpec { parents: vec![i], edits: alphabet[*d].clone(), nodesc: i + 2 == n });
+            }
+            lib_ops(&commits, all_subsets)
+                .into_iter()
+                .map(|op| Case { engine: "lib".into(), commits: commits.clone(), wc: n - 1, ops: vec![op], dirty: false })
+                .collect()
+        }),
+    }
+}
+
+/// All parent assignments for nodes 1..n over a fixed base node 0: every node has 1 or 2 parents
+/// among the earlier nodes; at most `max_merges` nodes have 2 parents.
+fn shapes(n: usize, max_merges: usize) -> Vec<Vec<Vec<usize>>> {
+    let mut out: Vec<Vec<Vec<usize>>> = vec![vec![vec![]]];
+    for i in 1..n {
+        let mut options: Vec<Vec<usize>> = (0..i).map(|p| vec![p]).collect();
+        for a in 0..i {
+            for b in a + 1..i {
+                options.push(vec![a, b]);
+            }
+        }
+        let mut next = vec![];
+        for s in &out {
+            for o in &options {
+                let merges = s.iter().filter(|p| p.len() > 1).count() + usize::from(o.len() > 1);
+                if merges <= max_merges {
+                    let mut s2 = s.clone();
+                    s2.push(o.clone());
+                    next.push(s2);
+                }
+            }
+        }
+        out = next;
+    }
+    out
+}
+
+/// F2: every graph shape over a small alphabet that produces conflicts, same changes and
+/// adjacent-line changes.
+fn family_shapes(n: usize, max_merges: usize, alphabet_name: &str) -> Family {
+    let alphabet: Vec<Edits> = match alphabet_name {
+        "small" => vec![
+            edits(&[("f", "mod0")]),
+            edits(&[("f", "mod1")]),
+            edits(&[("f", "same0")]),
+            edits(&[("g", "new")]),
+            vec![],
+        ],
+        _ => vec![
+            edits(&[("f", "mod0")]),
+            edits(&[("f", "mod1")]),
+            edits(&[("f", "same0")]),
+            edits(&[("f", "new")]),
+            edits(&[("f", "del1")]),
+            edits(&[("g", "new")]),
+            vec![],
+        ],
+    };
+    let shapes = shapes(n, max_merges);
+    let dims = vec![alphabet.len(); n - 1];
+    let per_shape = product(&dims);
+    let size = shapes.len() as u64 * per_shape;
+    let description = format!(
+        "every graph on a base commit c0 (creates f with 3 lines) plus {} commits with 1 or 2 parents among the earlier commits \
+         (at most {max_merges} merge commits; {} shapes), every commit applies one of {} edits to its merged parents' tree \
+         ({}); the last commit is the working-copy commit without description; operations: squash of every single-parent commit \
+         into its parent, absorb from every commit into all commits, each single ancestor and each complement of one",
+        n - 1,
+        shapes.len(),
+        alphabet.len(),
+        alphabet.iter().map(|e| if e.is_empty() { "empty".to_string() } else { e.iter().map(|(p, x)| format!("{p}:{x}")).collect::<Vec<_>>().join("+") }).collect::<Vec<_>>().join(", "),
+    );
+    Family {
+        name: format!("lib-shapes-{n}-{alphabet_name}"),
+        description,
+        size,
+        gen_cases: Box::new(move |idx| {
+            let shape = &shapes[(idx / per_shape) as usize];
+            let digits = decode(idx % per_shape, &dims);
+            let mut commits = vec![CommitSpec { parents: vec![], edits: edits(&[("f", "new")]), nodesc: false }];
+            for i in 1..n {
+                commits.push(CommitSpec { parents: shape[i].clone(), edits: alphabet[digits[i - 1]].clone(), nodesc: i + 1 == n });
+            }
+            lib_ops(&commits, false)
+                .into_iter()
+                .map(|op| Case { engine: "lib".into(), commits: commits.clone(), wc: n - 1, ops: vec![op], dirty: false })
+                .collect()
+        }),
+    }
+}
+
+/// F3: two operations in a row on linear stacks (the second one starts from a state that
+/// contains rewritten, possibly conflicted, commits).
+fn family_sequences(n: usize) -> Family {
+    let alphabet: Vec<Edits> = vec![
+        edits(&[("f", "mod0")]),
+        edits(&[("f", "mod1")]),
+        edits(&[("f", "mod0"), ("f", "mod1")]),
+        edits(&[("f", "ins1")]),
+        edits(&[("f", "del1")]),
+        edits(&[("g", "new")]),
+    ];
+    let dims = vec![alphabet.len(); n - 1];
+    let size = product(&dims);
+    let description = format!(
+        "linear stacks of {n} commits over {} edits (f:mod0, f:mod1, f:mod0+mod1, f:ins1, f:del1, g:new); every ordered pair \
+         of enabled operations (squash / absorb into all / absorb into one ancestor) applied one after the other, the oracle \
+         evaluated on both transitions",
+        alphabet.len()
+    );
+    Family {
+        name: format!("lib-sequences-{n}"),
+        description,
+        size,
+        gen_cases: Box::new(move |idx| {
+            let digits = decode(idx, &dims);
+            let mut commits = vec![CommitSpec { parents: vec![], edits: edits(&[("f", "new"), ("g", "new")]), nodesc: false }];
+            for (i, d) in digits.iter().enumerate() {
+                commits.push(CommitSpec { parents: vec![i], edits: alphabet[*d].clone(), nodesc: i + 2 == n });
+            }
+            let ops = lib_ops(&commits, false);
+            let mut cases = vec![];
+            for a in &ops {
+                for b in &ops {
+                    cases.push(Case { engine: "lib".into(), commits: commits.clone(), wc: n - 1, ops: vec![a.clone(), b.clone()], dirty: false });
+                }
+            }
+            cases
+        }),
+    }
+}
+
+/// F4: the real command line.
+fn family_cli(thorough: bool) -> Family {
+    // (parents relative to the stack, edits) building blocks
+    let base = CommitSpec { parents: vec![], edits: edits(&[("f", "new"), ("g", "new"), ("d/h", "new")]), nodesc: false };
+    let middles: Vec<Edits> = if thorough {
+        vec![edits(&[("f", "mod0")]), edits(&[("f", "mod1"), ("g", "mod0")]), edits(&[("d/h", "mod1")]), vec![]]
+    } else {
+        vec![edits(&[("f", "mod1"), ("g", "mod0")])]
+    };
+    let sources: Vec<Edits> = if thorough {
+        vec![
+            edits(&[("f", "mod0"), ("g", "mod0")]),
+            edits(&[("f", "mod1"), ("g", "mod1"), ("d/h", "mod1")]),
+            edits(&[("f", "mod0"), ("f", "mod1")]),
+            edits(&[("f", "ins0"), ("d/h", "del0")]),
+            edits(&[("g", "rm"), ("f", "mod2")]),
+            edits(&[("k", "new"), ("f", "mod0")]),
+        ]
+    } else {
+        vec![edits(&[("f", "mod0"), ("f", "mod1"), ("g", "mod0")]), edits(&[("k", "new"), ("g", "rm"), ("f", "mod0")])]
+    };
+    // what sits above the source: (extra commits as (parents relative: -1 = source, -2 = middle, k>=0 = earlier extra), edits)
+    #[derive(Clone)]
+    struct Above {
+        name: &'static str,
+        commits: Vec<(Vec<i32>, Edits)>,
+    }
+    let mut aboves = vec![
+        Above { name: "source-is-wc", commits: vec![] },
+        Above {
+            name: "side-branch-merge",
+            commits: vec![(vec![-2], edits(&[("g", "mod2")])), (vec![-1, 0], vec![]), (vec![1], edits(&[("d/h", "mod2")]))],
+        },
+    ];
+    if thorough {
+        aboves.push(Above { name: "child", commits: vec![(vec![-1], edits(&[("f", "mod2")]))] });
+        aboves.push(Above { name: "child-and-grandchild", commits: vec![(vec![-1], edits(&[("g", "mod2")])), (vec![0], vec![])] });
+        aboves.push(Above {
+            name: "two-children",
+            commits: vec![(vec![-1], edits(&[("f", "mod2")])), (vec![-1], edits(&[("f", "mod2")]))],
+        });
+        aboves.push(Above {
+            name: "conflicting-side-branch-merge",
+            commits: vec![(vec![-2], edits(&[("f", "mod0")])), (vec![-1, 0], vec![])],
+        });
+    }
+    let dirties: Vec<bool> = vec![false, true];
+    let dims = vec![middles.len(), sources.len(), aboves.len(), dirties.len()];
+    let size = product(&dims);
+    let description = format!(
+        "real jj binary on a Git-backend workspace: c0 creates f, g, d/h (3 lines each); c1 one of {} edits; the source c2 one \
+         of {} multi-path edits; above the source one of [{}]; the last commit is the working-copy commit (its edits either \
+         committed or only on disk, so that the command snapshots them); operations: jj split -r c2 -m selected with every \
+         non-empty subset of the paths {{f, g, d/h, k}} the source touches plus one untouched path, jj squash -r c2 -u, \
+         jj absorb --from c2 with --into unset / c0 / c1 / c0+c1, and the same three operations on the working-copy commit",
+        middles.len(),
+        sources.len(),
+        aboves.iter().map(|a| a.name).collect::<Vec<_>>().join(", "),
+    );
+    Family {
+        name: "cli".into(),
+        description,
+        size,
+        gen_cases: Box::new(move |idx| {
+            let d = decode(idx, &dims);
+            let (middle, source, above, dirty) = (&middles[d[0]], &sources[d[1]], &aboves[d[2]], dirties[d[3]]);
+            let mut commits = vec![base.clone()];
+            commits.push(CommitSpec { parents: vec![0], edits: middle.clone(), nodesc: false });
+            commits.push(CommitSpec { parents: vec![1], edits: source.clone(), nodesc: false });
+            let first_extra = commits.len();
+            for (parents, e) in &above.commits {
+                let parents = parents
+                    .iter()
+                    .map(|p| match p {
+                        -1 => 2,
+                        -2 => 1,
+                        k => first_extra + *k as usize,
+                    })
+                    .collect();
+                commits.push(CommitSpec { parents, edits: e.clone(), nodesc: false });
+            }
+            let wc = commits.len() - 1;
+            commits[wc].nodesc = true;
+            if dirty && commits[wc].edits.is_empty() {
+                return vec![]; // nothing to leave on disk: same as the clean variant
+            }
+            let mut ops: Vec<OpSpec> = vec![];
+            let mut touched: Vec<String> = vec![];
+            for (p, _) in source {
+                if !touched.contains(p) {
+                    touched.push(p.clone());
+                }
+            }
+            let untouched = ["f", "g", "d/h"].iter().find(|p| !touched.iter().any(|t| t == *p)).map(|p| p.to_string());
+            for s in nonempty_subsets(&touched) {
+                ops.push(OpSpec::Split { x: 2, paths: s });
+            }
+            if let Some(u) = untouched {
+                ops.push(OpSpec::Split { x: 2, paths: vec![u.clone()] });
+                ops.push(OpSpec::Split { x: 2, paths: vec![touched[0].clone(), u] });
+            }
+            ops.push(OpSpec::Squash { x: 2 });
+            for into in [None, Some(vec![0]), Some(vec![1]), Some(vec![0, 1])] {
+                ops.push(OpSpec::Absorb { x: 2, into });
+            }
+            if wc != 2 {
+                // the same operations on the working-copy commit (jj's defaults)
+                if commits[wc].parents.len() == 1 {
+                    ops.push(OpSpec::Squash { x: wc });
+                }
+                ops.push(OpSpec::Absorb { x: wc, into: None });
+                let mut wc_paths: Vec<String> = vec![];
+                for (p, _) in &commits[wc].edits {
+                    if !wc_paths.contains(p) {
+                        wc_paths.push(p.clone());
+                    }
+                }
+                if !wc_paths.is_empty() {
+                    ops.push(OpSpec::Split { x: wc, paths: wc_paths });
+                }
+            }
+            ops.into_iter()
+                .map(|op| Case { engine: "cli".into(), commits: commits.clone(), wc, ops: vec![op], dirty })
+                .collect()
+        }),
+    }
+}
+
+// ---------------------------------------------------------------------------------------
+
 fn main() {
-    let jjv = std::env::var("JJV_BIN").unwrap_or_default();
-    println!("jjv = {jjv}");
-    let out = std::process::Command::new(&jjv).arg("--version").output();
-    println!("{out:?}");
-    std::process::exit(2);
+    let ctx = Ctx::from_args("C09", Level::ModelChecking);
+    vcommon::silence_panics();
+    let tally = Tally::default();
+    if let Some((_sig, case)) = ctx.replay_case() {
+        let case: Case = serde_json::from_value(case).unwrap_or_else(|e| machinery_failure(&format!("bad replay case: {e}")));
+        let (valid, _) = run_case(&ctx, &tally, &case);
+        if !valid {
+            machinery_failure("the replayed case is not executable");
+        }
+        ctx.finish(Coverage { evaluations: 1, ..Default::default() });
+    }
+
+    // Determinism gate: one case of each engine twice, same observations.
+    // (ids do not reach the oracle; this guards the construction itself)
+    let mut families: Vec<Family> = vec![];
+    if ctx.quick() {
+        families.push(family_linear(4, true));
+        families.push(family_shapes(4, 2, "rich"));
+        families.push(family_sequences(3));
+        families.push(family_cli(false));
+    } else {
+        families.push(family_linear(4, true));
+        families.push(family_linear(5, false));
+        families.push(family_shapes(4, 3, "rich"));
+        families.push(family_shapes(5, 2, "small"));
+        families.push(family_sequences(4));
+        families.push(family_cli(true));
+    }
+
+    // development aid: C09_ONLY=<family name prefix> runs a part of the space (never exhaustive)
+    let only = std::env::var("C09_ONLY").ok();
+    if let Some(only) = &only {
+        families.retain(|f| f.name.starts_with(only.as_str()));
+    }
+    let samples = Samples::new(8);
+    let nontrivial = Counter::new();
+    let evaluated = Counter::new();
+    let mut family_rows: Vec<Value> = vec![];
+    for fam in &families {
+        let t0 = std::time::Instant::now();
+        let (ev0, nt0, tr0) = (evaluated.get(), nontrivial.get(), tally.transitions.get());
+        let run_one = |idx: u64, case: &Case| {
+            let (valid, nt) = run_case(&ctx, &tally, case);
+            if valid {
+                evaluated.inc();
+            }
+            if nt {
+                nontrivial.inc();
+                if idx % 97 == 13 {
+                    samples.offer(|| serde_json::to_value(case).unwrap());
+                }
+            }
+        };
+        if fam.size <= 4096 {
+            // few stacks with many (or slow) cases each: shard over the cases
+            let cases: Vec<(u64, Case)> =
+                (0..fam.size).flat_map(|idx| (fam.gen_cases)(idx).into_iter().map(move |c| (idx * 97 + 13, c))).collect();
+            cases.par_iter().for_each(|(idx, case)| run_one(*idx, case));
+        } else {
+            (0..fam.size).into_par_iter().for_each(|idx| {
+                for case in (fam.gen_cases)(idx) {
+                    run_one(idx, &case);
+                }
+            });
+        }
+        let row = json!({
+            "family": fam.name,
+            "space": fam.description,
+            "stacks": fam.size,
+            "cases_executed": evaluated.get() - ev0,
+            "nontrivial": nontrivial.get() - nt0,
+            "transitions": tally.transitions.get() - tr0,
+            "wall_s": (t0.elapsed().as_secs_f64() * 10.0).round() / 10.0,
+        });
+        eprintln!("[C09] {}", row);
+        family_rows.push(row);
+    }
+
+    let per_op: BTreeMap<String, Value> = tally
+        .per_op
+        .lock()
+        .unwrap()
+        .iter()
+        .map(|(k, v)| {
+            (
+                k.clone(),
+                json!({"transitions": v[0], "something_moved": v[1], "with_descendants": v[2], "with_descendant_joining_side_branch": v[3], "wc_at_or_above_source": v[4], "nothing_moved": v[5]}),
+            )
+        })
+        .collect();
+    // vacuity alarms
+    if only.is_some() {
+        eprintln!("[C09] partial run (C09_ONLY): {}", serde_json::to_string_pretty(&json!({"per_op": per_op, "errors": *tally.op_error_samples.lock().unwrap(), "cli_phase_s": CLI_NANOS.iter().map(|n| n.load(Ordering::Relaxed) as f64 / 1e9).collect::<Vec<_>>()})).unwrap());
+        ctx.finish(Coverage { evaluations: evaluated.get(), distinct_nontrivial: nontrivial.get(), exhaustive: false, ..Default::default() });
+    }
+    for (op, v) in tally.per_op.lock().unwrap().iter() {
+        if v[1] == 0 || v[2] == 0 || v[4] == 0 {
+            machinery_failure(&format!("vacuous: operation {op} never moved anything / never had descendants / never had the working copy above ({v:?})"));
+        }
+    }
+    for op in ["squash", "absorb", "split"] {
+        if !tally.per_op.lock().unwrap().contains_key(op) {
+            machinery_failure(&format!("vacuous: operation {op} was never executed"));
+        }
+    }
+    if tally.joined_descendants_checked.get() == 0 || tally.conflicted_descendants.get() == 0 || tally.absorb_receivers_2plus.get() == 0 {
+        machinery_failure("vacuous: no descendant joining a side branch / no conflicted descendant / no absorb into two commits");
+    }
+    let states = tally.states.lock().unwrap().len() as u64;
+    let transitions = tally.transitions.get();
+    let mut extra: BTreeMap<String, Value> = BTreeMap::new();
+    extra.insert("families".into(), json!(family_rows));
+    extra.insert("per_operation".into(), json!(per_op));
+    extra.insert("cases_generated".into(), json!(tally.cases.get()));
+    extra.insert("cases_not_executable".into(), json!(tally.invalid.get()));
+    let counters: Vec<(&str, &Counter)> = vec![
+        ("something_moved", &tally.moved),
+        ("nothing_moved", &tally.nothing_moved),
+        ("descendants_checked", &tally.descendants_checked),
+        ("descendants_joining_a_side_branch_checked", &tally.joined_descendants_checked),
+        ("descendants_whose_parents_trees_changed", &tally.descendant_parent_tree_changed),
+        ("conflicted_descendants", &tally.conflicted_descendants),
+        ("conflicted_source_trees", &tally.conflicted_top),
+        ("receivers_conflicted_after", &tally.conflicted_receiver_after),
+        ("between_commits_rewritten", &tally.between_rewritten),
+        ("side_branch_commits_rebased", &tally.side_branches_rebased),
+        ("wc_is_source", &tally.wc_is_source),
+        ("wc_is_descendant", &tally.wc_is_descendant),
+        ("wc_below_or_aside", &tally.wc_below_or_aside),
+        ("new_wc_commit_created", &tally.new_wc_commit_created),
+        ("absorb_source_abandoned", &tally.source_abandoned_in_absorb),
+        ("absorb_source_emptied_but_kept", &tally.absorb_source_emptied),
+        ("absorb_one_receiver", &tally.absorb_receivers_1),
+        ("absorb_two_or_more_receivers", &tally.absorb_receivers_2plus),
+        ("absorb_source_is_merge", &tally.absorb_source_is_merge),
+        ("squash_destination_is_merge", &tally.squash_dest_is_merge),
+        ("split_proper_selection", &tally.split_proper),
+        ("split_full_selection", &tally.split_full),
+        ("split_empty_selection", &tally.split_empty),
+        ("unrelated_commits_checked", &tally.unrelated_commits_checked),
+        ("representation_only_differences", &tally.representation_only_differences),
+        ("operations_failed_inside_jj", &tally.op_errors),
+        ("cli_commands_refused", &tally.cli_refused),
+        ("cli_commands_that_snapshotted_first", &tally.cli_snapshot_ops),
+    ];
+    extra.insert("vacuity".into(), json!(counters.iter().map(|(k, c)| (k.to_string(), c.get())).collect::<BTreeMap<_, _>>()));
+    extra.insert(
+        "cli_cpu_seconds_by_phase".into(),
+        json!({
+            "init_workspace": CLI_NANOS[0].load(Ordering::Relaxed) as f64 / 1e9,
+            "build_commit_checkout": CLI_NANOS[1].load(Ordering::Relaxed) as f64 / 1e9,
+            "jj_child_process": CLI_NANOS[2].load(Ordering::Relaxed) as f64 / 1e9,
+            "load_and_oracle": CLI_NANOS[3].load(Ordering::Relaxed) as f64 / 1e9,
+        }),
+    );
+    extra.insert("failed_or_refused_operations".into(), json!(*tally.op_error_samples.lock().unwrap()));
+    let cov = Coverage {
+        evaluations: evaluated.get(),
+        distinct_nontrivial: nontrivial.get(),
+        rule: "a case = (stack, working-copy commit, operation list), each generated once; non-trivial = on some transition a \
+               change really moved (a receiver's tree changed / the commit was squashed / a proper part was split off) and \
+               something sits above the source (a descendant, or the source is the working-copy commit)"
+            .into(),
+        samples: samples.take(),
+        exhaustive: true,
+        states: Some(states),
+        transitions: Some(transitions),
+        traces_validated_against_impl: Some(transitions),
+        extra,
+        assumptions: vec![
+            "tree equality is equality of the tree ids (all terms of a conflicted tree); conflict labels are not part of the tree".into(),
+            "an error or panic inside jj during an operation is counted (operations_failed_inside_jj), not judged".into(),
+            "the side branches hanging off a receiver are rebased and get new trees; the statement's last sentence is read as a bound on which commits may be rewritten at all (clause c), not as a claim about those side branches".into(),
+            "lib engine: TestBackend, one uncommitted transaction per case; cli engine: Git backend, real working copy".into(),
+        ],
+    };
+    ctx.finish(cov);
 }
